@@ -19,6 +19,13 @@ func scriptCopy(clean *script.Source, fault, mode int) script.Source {
 			d := s.Reads[fault].Data
 			s.Reads[fault] = script.Read{Data: d[:len(d)/2], Err: true}
 			s.Reads = s.Reads[:fault+1]
+		case 3: // transient: an error with no data, after which the source works again
+			s.Reads[fault] = script.Read{Err: true}
+			s.Reads = append(s.Reads[:fault+1:fault+1], clean.Reads[fault:]...)
+		case 4: // transient: half the data with an error, after which the source works again
+			d := s.Reads[fault].Data
+			s.Reads[fault] = script.Read{Data: d[:len(d)/2], Err: true}
+			s.Reads = append(s.Reads[:fault+1:fault+1], clean.Reads[fault:]...)
 		default:
 			s.Reads = s.Reads[:fault]
 		}
